@@ -26,9 +26,11 @@ def model_check(ctx):
     if ctx.quick:
         ctx.mc("ApplyParams", "MC_ApplyParams_q.cfg", label="one device: 4 cells, 4 placements, continuous/etched/discrete, materials from {1,2,4}, all histories <= 3")
         ctx.mc("ApplyParams", "MC_ApplyParams_q2.cfg", label="etched + plain device, both list orders, disjoint / overlapping, all histories <= 3")
+        ctx.mc("ApplyParams", "MC_ApplyParams_q3.cfg", label="dispersive simulations: plain / dispersive device materials on plain / dispersive cells, histories <= 2")
     else:
         ctx.mc("ApplyParams", "MC_ApplyParams_t.cfg", label="one and two devices, placed scenes over {1,2,4}^4, all histories <= 3", timeout=3 * 3600)
     ctx.mc_negative("ApplyParams", "MC_ApplyParams_neg.cfg")  # no backup of the placed arrays at all
+    ctx.mc_negative("ApplyParams", "MC_ApplyParams_neg3.cfg")  # only devices with a dispersive material write the coefficients
     ctx.mc_negative("ApplyParams", "MC_ApplyParams_neg2.cfg")  # backup only if ALL devices etch (etched + plain scene)
     ctx.assumptions += [
         "1-D scenes N x 1 x 1; permittivity tensors with small integer entries; parameters in {0, 1/2, 1}",
@@ -84,6 +86,16 @@ def gen_cases(ctx):
         for ms in ([1, 4], [1, 2, 4]):
             for slab in (None, (0, 2, 2)):
                 scenes.append({"N": N, "slab": slab, "vol": 1, "disp": 1, "devs": [{"lo": lo, "hi": hi, "vox": vox, "kind": "discrete", "mats": ms}]})
+    # plain (non-dispersive) devices, discrete and continuous, on top of a Lorentz-dispersive slab / volume: every cell of
+    # the device must get the coefficients of the selected material, i.e. zeros (and the blend of zeros)
+    for N, lo, hi, vox in ((4, 1, 3, 1), (6, 1, 5, 2), (6, 0, 6, 3)):
+        for kind, ms in (("discrete", [1, 4]), ("discrete", [1, 2, 4]), ("continuous", [1, 4]), ("continuous", [2, 4])):
+            for slab, dvol in (((0, N, 2), 0), ((0, 2, 2), 0), ((2, N, 4), 0), (None, 1), ((0, 2, 4), 1)):
+                for dmat in (0, 1):
+                    if dmat and kind == "continuous" and slab != (0, N, 2):
+                        continue
+                    scenes.append({"N": N, "slab": slab, "vol": 1, "disp": 1, "dslab": 0 if dvol and slab else 1, "dvol": dvol,
+                                   "devs": [{"lo": lo, "hi": hi, "vox": vox, "kind": kind, "mats": ms, "dmat": dmat}]})
     # two devices: one etched, one plain (continuous or discrete), both orders in the object list; disjoint,
     # touching and overlapping placements; an anisotropic variant.  (An etched device that follows an overlapping
     # plain one blends with that device's output: the plain device then only gets parameters 0 / 1 so that the
@@ -107,7 +119,9 @@ def gen_cases(ctx):
 
         iso = [sc for sc in scenes if is_iso(sc)]
         rest = [sc for sc in scenes if not is_iso(sc)]
-        scenes = rng.sample(iso, 24) + rng.sample(rest, min(len(rest), 20))
+        plain_on_disp = [sc for sc in rest if sc["disp"] and "dvol" in sc]
+        rest = [sc for sc in rest if sc not in plain_on_disp]
+        scenes = rng.sample(iso, 22) + rng.sample(rest, min(len(rest), 18)) + rng.sample(plain_on_disp, 16)
         pairs = rng.sample(pairs[:-2], 20) + pairs[-2:]
     for sc in scenes + pairs:
         devs = sc["devs"]
@@ -163,12 +177,13 @@ def _place(sc):
 
     N = sc["N"]
     cfg = fdtdx.SimulationConfig(time=10e-15, grid=fdtdx.UniformGrid(spacing=100e-9), dtype=jnp.float64, backend="cpu")
-    vol = fdtdx.SimulationVolume(partial_grid_shape=(N, 1, 1), material=mat(sc["vol"]))
+    dslab = bool(sc["disp"]) and bool(sc.get("dslab", 1))
+    vol = fdtdx.SimulationVolume(partial_grid_shape=(N, 1, 1), material=mat(sc["vol"], dispersive=bool(sc.get("dvol", 0))))
     objs, cons = [vol], []
     base = [_tensor(sc["vol"]) for _ in range(N)]
     if sc["slab"]:
         a, b, m = sc["slab"]
-        slab = fdtdx.UniformMaterialObject(name="slab", partial_grid_shape=(b - a, 1, 1), material=mat(m, dispersive=bool(sc["disp"])))
+        slab = fdtdx.UniformMaterialObject(name="slab", partial_grid_shape=(b - a, 1, 1), material=mat(m, dispersive=dslab))
         objs.append(slab)
         cons.append(slab.set_grid_coordinates(axes=(0, 1, 2), sides=("-", "-", "-"), coordinates=(a, 0, 0)))
         for c in range(a, b):
@@ -176,7 +191,7 @@ def _place(sc):
     # material names deliberately NOT in permittivity order
     names = ["zeta", "alpha", "mid"]
     for i, d in enumerate(sc["devs"]):
-        mats = {names[j]: mat(m, dispersive=bool(sc["disp"]) and j == len(d["mats"]) - 1) for j, m in enumerate(d["mats"])}
+        mats = {names[j]: mat(m, dispersive=bool(sc["disp"]) and bool(d.get("dmat", 1)) and j == len(d["mats"]) - 1) for j, m in enumerate(d["mats"])}
         if len(mats) > 1:
             mats = dict(reversed(list(mats.items())))
         tr = [fdtdx.ClosestIndex()] if d["kind"] == "discrete" else []
@@ -206,8 +221,8 @@ def _enc(arrays, N, state):
         inv.append([v[0], 0, 0, 0, v[0], 0, 0, 0, v[0]] if comps == 1 else [v[0], 0, 0, 0, v[1], 0, 0, 0, v[2]] if comps == 3 else v)
     out = {"inv": inv, "rd": rd}
     if arrays.dispersive_c1 is not None:
-        cs = [np.asarray(x, dtype=np.float64)[:, :, :, 0, 0] for x in (arrays.dispersive_c1, arrays.dispersive_c2, arrays.dispersive_c3)]
-        out["dc"] = [[int(v) for x in cs for v in np.rint(np.clip(x[:, :, c], -20, 20).reshape(-1) * S)] for c in range(N)]
+        cs = [np.asarray(x, dtype=np.float64)[:, :, :, 0, 0] for x in (arrays.dispersive_c1, arrays.dispersive_c2, arrays.dispersive_c3, arrays.dispersive_c4) if x is not None]
+        out["dc"] = [[int(v) for x in cs for v in np.rint(np.clip(np.nan_to_num(x[:, :, c], nan=5.0), -5, 5).reshape(-1) * S)] for c in range(N)]
     return out, comps
 
 
@@ -263,13 +278,16 @@ def observe(case):
     tdevs = [{"lo": d["lo"], "hi": d["hi"], "vox": d["vox"], "kind": d["kind"], "mats": sorted((_tensor(m) for m in d["mats"]), key=lambda t: t[0])} for d in sdevs]
     rec = {"id": case["id"], "N": N, "comps": comps, "S": S, "tol": TOL, "base": base, "ndev": len(tdevs),
            "devs": tdevs, "events": events, "fresh": fresh, "rdev": st["rdev"], "disp": 0, "hlen": len(case["hist"])}  # fmt: skip
-    dev = objects["dev0"]
     if sc["disp"] and arrays0.dispersive_c1 is not None:
         npoles, nc = arrays0.dispersive_c1.shape[0], arrays0.dispersive_c1.shape[1]
         ncc = arrays0.dispersive_c3.shape[1]
-        t = compute_allowed_dispersive_coefficients(dev.materials, dt=dev._config.time_step_duration, max_num_poles=npoles, num_components=nc, coupling_components=ncc)
-        tabs = [np.asarray(x, dtype=arrays0.dispersive_c1.dtype).astype(np.float64) for x in t[:3]]
-        rec["dtable"] = [[int(v) for x in tabs for v in np.rint(np.clip(x[m], -20, 20).reshape(-1) * S)] for m in range(len(sc["devs"][0]["mats"]))]
+        nk = 3 if arrays0.dispersive_c4 is None else 4
+        rec["dtables"] = []
+        for i in order:  # per device (apply order): coefficient tuple of each of its materials, from the implementation
+            dv = objects[f"dev{i}"]
+            t = compute_allowed_dispersive_coefficients(dv.materials, dt=dv._config.time_step_duration, max_num_poles=npoles, num_components=nc, coupling_components=ncc)
+            tabs = [np.asarray(x, dtype=arrays0.dispersive_c1.dtype).astype(np.float64) for x in t[:nk]]
+            rec["dtables"].append([[int(v) for x in tabs for v in np.rint(np.clip(x[m], -5, 5).reshape(-1) * S)] for m in range(len(sc["devs"][i]["mats"]))])
         rec["disp"] = 1
     return rec
 
